@@ -393,6 +393,8 @@ package template
 //@   option dependsonly c.state c.delim c.attr.name c.element.name templateName
 //@   option dependsonly-finding C02-memo-key-ignores-prefix-and-rel
 //@   ensures text: c.state == stateText ==> sameview(r, templateName)
+//@   ensures layout: c.state != stateText ==> seqeq(r, cat(templateName, "$htmltemplate_", statename(c.state), ite(c.delim != 0, cat("_", delimname(c.delim)), ""), ite(len(c.attr.name) > 0, cat("_attr", titleof(c.attr.name)), ""), ite(len(c.element.name) > 0, cat("_element", titleof(c.element.name)), "")))
+//@   ensures marked: c.state != stateText ==> len(r) > len(templateName)
 
 //@ func (t *Template) Name() (r string)
 //@   serves C05 C07 C08
